@@ -336,11 +336,11 @@ def mutants_of(prog, q):
                            'statement added (block %d/%d, position %d)'
                            % (q, k, bi, si, pos))
                     k += 1
-                    if k >= 12:
+                    if k >= 4:
                         break
-                if k >= 12:
+                if k >= 4:
                     break
-            if k >= 12:
+            if k >= 4:
                 break
     for kind in KINDS:
         if kind in ('p-rename-local', 'p-add-log', 'p-extract-arg'):
